@@ -218,6 +218,43 @@ def body_factory(wrapper, step, trained0, hook, depth, col):
     return body
 
 
+def check_through_job(wrapper, step, parallel):
+    """Requests as they arrive in a run: Algorithm.evaluate -> Job -> surrogate. The training set holds the true objective
+    values, unchanged (no rounding), in request order; counters add up."""
+    from artap.algorithm import DummyAlgorithm
+    from artap.individual import Individual
+    problem, s, stub, st = make(wrapper, step, False, False)
+    xs = [0.1234567891234, 0.5000000049, 3e-5, 0.777777777777, 0.25, 0.999999999]
+    batch = [Individual([x]) for x in xs]
+    alg = DummyAlgorithm(problem)
+    from ..core.sched import default_parallel
+    import contextlib
+    try:
+        with (default_parallel() if parallel else contextlib.nullcontext()):
+            if parallel:
+                alg.options['max_processes'] = 2
+            alg.evaluate(batch)
+    except Exception as e:
+        return [("C19:%s:through-job:exception:%s" % (wrapper, type(e).__name__), "raised %r" % (e,))]
+    out = []
+    desc = "%s step=%r, six requests through Algorithm.evaluate (parallel=%r)" % (wrapper, step, parallel)
+    true = [[x * x + 1.0] for x in xs]
+    if wrapper != "eval":
+        got = sorted(([float(v[0]) for v in [xx]][0], [repr(float(c)) for c in yy]) for xx, yy in zip(s.x_data, s.y_data))
+        want = sorted((x, [repr(float(c)) for c in t]) for x, t in zip(xs, true))
+        if got != want:
+            out.append(("C19:%s:through-job:training-set-not-the-true-values" % wrapper, "training set %r, true pairs %r; %s" % (got[:3], want[:3], desc)))
+        if len(stub.fits) != (0 if step == -1 else len(xs) // step):
+            out.append(("C19:%s:through-job:fit-calls" % wrapper, "%d fit calls for %d evaluations; %s" % (len(stub.fits), len(xs), desc)))
+    if s.eval_counter + s.predict_counter != len(xs):
+        out.append(("C19:%s:through-job:counters-sum" % wrapper, "counters add up to %d after %d requests; %s" % (s.eval_counter + s.predict_counter, len(xs), desc)))
+    for ind, t in zip(batch, true):
+        if [repr(float(c)) for c in ind.costs] != [repr(float(c)) for c in t]:
+            out.append(("C19:%s:through-job:value-not-returned-unchanged" % wrapper, "design %r got costs %r, the objective's value is %r; %s" % (list(ind.vector), list(ind.costs), t, desc)))
+            break
+    return out
+
+
 def check_two_wrappers(w1, step1, w2, step2, depth):
     """Two independent surrogate wrappers (two problems) receive requests alternately; each must behave as if alone."""
     from artap.individual import Individual
@@ -243,6 +280,16 @@ def check_two_wrappers(w1, step1, w2, step2, depth):
 
 
 def _shard(shard, col: Collector):
+    if shard[0] == "viajob":
+        for wrapper in ("eval", "scikit", "smt"):
+            for step in ((-1,) if wrapper == "eval" else (-1, 1, 2, 3)):
+                for parallel in (False, True):
+                    col.case()
+                    col.nontrivial(("viajob", wrapper, step, parallel))
+                    for key, msg in check_through_job(wrapper, step, parallel):
+                        col.violation(key, "viajob", msg, {"wrapper": wrapper, "step": step, "parallel": parallel})
+        col.sample({"kind": "requests through Algorithm.evaluate and Job"}, 1)
+        return
     if shard[0] == "two":
         for (w1, s1, w2, s2) in (("scikit", 2, "scikit", 3), ("scikit", 1, "smt", -1), ("smt", 2, "scikit", 2), ("smt", 3, "smt", 1)):
             col.case()
@@ -260,6 +307,8 @@ def _shard(shard, col: Collector):
 
 
 def replay(sub, case):
+    if sub == "viajob":
+        return check_through_job(case["wrapper"], case["step"], case["parallel"])
     if sub == "two":
         return check_two_wrappers(case["w1"], case["s1"], case["w2"], case["s2"], case["depth"])
     col = Collector()
@@ -300,6 +349,10 @@ def run(tier, seed):
                 shards.append((wrapper, pre, False, hook, 12 if not hook else min(depth, 7)))
     shards.append(("eval", ("evaluated", -1), True, False, 9))
     shards.append(("two", 12))
+    shards.append(("viajob",))
+    for wrapper in ("scikit", "smt"):          # hundreds to a thousand stored samples: the retraining rule does not change with the size of the training set
+        for step in (1, 7, 100, 500):
+            shards.append((wrapper, step, False, False, 1100))
     for wrapper in ("scikit", "smt"):          # long request sequences (no hook: one execution each)
         for step in (1, 2, 3, 4, 5, 7, 10, -1):
             shards.append((wrapper, step, False, False, 40))
